@@ -335,6 +335,22 @@ func (bA *BitArray) Update(o *BitArray) {
 	copy(bA.Elems, o.Elems)
 }
 
+// ValidateBasic checks that Elems holds exactly the words needed for Bits, the invariant every
+// indexing method relies on. A BitArray filled by FromProto carries both values from the wire.
+func (bA *BitArray) ValidateBasic() error {
+	if bA == nil {
+		return nil
+	}
+	numElems := bA.Bits / 64
+	if bA.Bits%64 != 0 {
+		numElems++
+	}
+	if uint(len(bA.Elems)) != numElems {
+		return fmt.Errorf("bit array of %d bits must have %d elements, got %d", bA.Bits, numElems, len(bA.Elems))
+	}
+	return nil
+}
+
 // ToProto converts BitArray to protobuf
 func (bA *BitArray) ToProto() *kprotobits.BitArray {
 	if bA == nil || len(bA.Elems) == 0 {
